@@ -621,8 +621,27 @@ def k3(facts, tier):
 # ---------------------------------------------------------------------------------------------
 # W14: sequences are written and rebuilt in container order
 
-ORDER_ALTERING = ("rev", "as_slices", "as_mut_slices", "sort", "sort_by", "sort_by_key", "sort_unstable", "sort_unstable_by", "reverse",
-                  "rotate_left", "rotate_right", "push_front", "swap", "swap_remove", "split_off", "drain", "rsplit", "rchunks", "pop")
+ORDER_ALTERING = ("rev", "sort", "sort_by", "sort_by_key", "sort_unstable", "sort_unstable_by", "reverse",
+                  "rotate_left", "rotate_right", "push_front", "rsplit", "rchunks")
+
+
+def two_slices_out_of_order(g):
+    """`let (front, back) = dq.as_slices()`: the halves must be visited front first"""
+    from .taint_rules import pat_binds
+    for x in walk(g["body"]):
+        if x.get("k") == "LetS" and x.get("init") is not None and x["pat"].get("k") == "Leaf":
+            i = peel(x["init"])
+            if i.get("k") == "Call" and (callee(i) or "").rsplit("::", 1)[-1] in ("as_slices", "as_mut_slices"):
+                vs = [b["v"] for b in pat_binds(x["pat"])]
+                if len(vs) != 2:
+                    continue
+                first_use = {}
+                for n, y in enumerate(walk(g["body"])):
+                    if y.get("k") == "Var" and y["v"] in vs and y["v"] not in first_use:
+                        first_use[y["v"]] = n
+                if vs[0] in first_use and vs[1] in first_use and first_use[vs[1]] < first_use[vs[0]]:
+                    return True
+    return False
 SEQ_HEADS = ("alloc::vec::Vec<", "alloc::collections::vec_deque::VecDeque<", "[", "&[", "alloc::boxed::Box<[", "alloc::sync::Arc<[",
              "arrayvec::arrayvec::ArrayVec<", "smallvec::SmallVec<", "alloc::collections::binary_heap::BinaryHeap<", "alloc::string::String",
              "str", "&str")
@@ -662,6 +681,8 @@ def w14(facts, tier):
                     name = (callee(x) or "").rsplit("::", 1)[-1]
                     if name in ORDER_ALTERING:
                         bad.append(f"{name} in {g['id']}")
+            if two_slices_out_of_order(g):
+                bad.append(f"as_slices halves visited back before front in {g['id']}")
         key = f["id"]
         if key in seen:
             continue
